@@ -20,8 +20,8 @@
    operation = [code, name, val], code 0 increment, 1 set_counter, 2 register counter,
    3 register other; name -1 = "execution_time_ms". *)
 From Coq Require Import List ZArith NArith Bool String.
-From Coq Require Uint63.
-From IB Require Import Util.J Metrics.Metrics Metrics.Export.
+From Coq Require Uint63 PrimFloat.
+From IB Require Import Util.J Metrics.Metrics Metrics.Export Metrics.Histogram.
 Import ListNotations.
 Open Scope Z_scope.
 
@@ -656,18 +656,23 @@ Definition h_val (tag : Z) : jv :=
     else if i =? 5 then JRaw (txt "1.7976931348623157e308")
     else JRaw (txt "1e-310")
   else if k =? 3 then
-    (* HistogramMetric of the samples 0, 1.5, .., 1.5 (n - 1): stats() as a Map *)
+    (* HistogramMetric of the samples 0, 1.5, .., 1.5 (n - 1) (= 6 i quarters): stats() of the
+       histogram model as a Map; the mean of these samples is a whole number of quarters *)
     let n := v mod 100 in
     if 100 <=? v then JStr (txt "unsupported")
     else
-      JObj [(txt "count", JNat (Z.to_N n));
-            (txt "max", quarter (if n =? 0 then 0 else 6 * (n - 1)));
-            (txt "mean", quarter (if n =? 0 then 0 else 3 * (n - 1)));
-            (txt "min", quarter 0);
-            (txt "p50", quarter (6 * (n / 2)));
-            (txt "p95", quarter (6 * (n * 95 / 100)));
-            (txt "p99", quarter (6 * (n * 99 / 100)));
-            (txt "sum", quarter (3 * n * (n - 1)))]
+      match stats (map (fun i => 6 * Z.of_nat i) (seq 0 (Z.to_nat n))) with
+      | Some st =>
+          JObj [(txt "count", JNat (N.of_nat (hs_count st)));
+                (txt "max", quarter (hs_max st));
+                (txt "mean", quarter (if n =? 0 then 0 else hs_sum st / n));
+                (txt "min", quarter (hs_min st));
+                (txt "p50", quarter (hs_p50 st));
+                (txt "p95", quarter (hs_p95 st));
+                (txt "p99", quarter (hs_p99 st));
+                (txt "sum", quarter (hs_sum st))]
+      | None => JStr (txt "panic")
+      end
   else if k =? 4 then
     (* OddMetric *)
     if v =? 0 then JNull
@@ -689,9 +694,9 @@ Definition h_desc (tag : Z) : option text :=
 Definition HENV : env := Env h_name h_val h_desc.
 
 (* [length, hash] as c16.rs `digest` computes it: h <- h * 257 + byte + 1 in wrapping 63-bit
-   arithmetic, the low 61 bits at the end *)
+   arithmetic, the low 40 bits at the end *)
 Definition dig_b : PrimInt63.int := Eval vm_compute in Uint63.of_Z 257.
-Definition dig_mask : PrimInt63.int := Eval vm_compute in Uint63.of_Z (2 ^ 61 - 1).
+Definition dig_mask : PrimInt63.int := Eval vm_compute in Uint63.of_Z (2 ^ 40 - 1).
 Definition dig0 : PrimInt63.int := Eval vm_compute in Uint63.of_Z 7.
 Fixpoint digest_go (t : text) (n : Z) (h : PrimInt63.int) : Z * Z :=
   match t with
@@ -707,8 +712,17 @@ Definition odig_eqb (o : option text) (j : J) : bool :=
   | Some t, JL _ => dig_eqb (digest t) j
   | _, _ => false
   end.
-Definition full_eqb (t : text) (j : J) : bool :=      (* the text itself, when the harness sent it *)
-  match j with JN => true | JY b => text_eqb t b | JS s => text_eqb t (string_bytes s) | _ => false end.
+(* the text itself, when the harness sent it: c16.rs `bytes_json` writes harmless characters as
+   they are and every other byte as ~XX (upper-case hex) *)
+Definition unhex (c : Z) : Z := if c <? 58 then c - 48 else c - 55.
+Fixpoint unesc (l : list Z) : text :=
+  match l with
+  | 126 :: a :: b :: r => (16 * unhex a + unhex b) :: unesc r
+  | c :: r => c :: unesc r
+  | [] => []
+  end.
+Definition full_eqb (t : text) (j : J) : bool :=
+  match j with JN => true | JS s => text_eqb t (unesc (string_bytes s)) | _ => false end.
 
 (* one input step as model steps; the clock oracle: record_start reads `now` (every stamp so far
    is <= now), record_end after a start reads start + the elapsed time observed after the step *)
@@ -849,6 +863,51 @@ Definition judge_saves_case (ncoll npaths : Z) (steps obs : list J) (finals : J)
       | _ => None
       end
   | None => None
+  end.
+
+(* ---------- HistogramMetric::stats (kind `hist`) ---------- *)
+(* samples in quarters: an explicit list, or x_i = ((a i + b) mod m) - off for i < n *)
+Definition dec_samples (j : J) : option (list Z) :=
+  match j with
+  | JL [JI 0; l] => jints l
+  | JL [JI 1; JI n; JI a; JI b; JI m; JI off] =>
+      if (n <? 0) || (m <=? 0) then None
+      else Some (map (fun i => (a * Z.of_nat i + b) mod m - off) (seq 0 (Z.to_nat n)))
+  | _ => None
+  end.
+Definition float_of_Z (z : Z) : PrimFloat.float :=
+  if z <? 0 then PrimFloat.opp (PrimFloat.of_uint63 (Uint63.of_Z (- z)))
+  else PrimFloat.of_uint63 (Uint63.of_Z z).
+(* independent reference for sorted[i]: fewer than i + 1 samples are smaller, more than i are
+   not larger *)
+Definition rank_ok (xs : list Z) (i : Z) (x : Z) : bool :=
+  let lt := Z.of_nat (List.length (filter (fun y => y <? x) xs)) in
+  let le := Z.of_nat (List.length (filter (fun y => y <=? x) xs)) in
+  (lt <=? i) && (i <? le).
+Definition judge_hist (xs : list Z) (out : J) : option (bool * bool) :=
+  match out with
+  | JL [JS _; JL [JI cnt; JI sum; JF mean; JI mn; JI mx; JI p50; JI p95; JI p99]; JB twin] =>
+      let n := Z.of_nat (List.length xs) in
+      let agree :=
+        match stats xs with
+        | Some st =>
+            (cnt =? Z.of_nat (hs_count st)) && (sum =? hs_sum st) && (mn =? hs_min st) &&
+            (mx =? hs_max st) && (p50 =? hs_p50 st) && (p95 =? hs_p95 st) && (p99 =? hs_p99 st) &&
+            (if n =? 0 then PrimFloat.eqb mean PrimFloat.zero
+             else PrimFloat.eqb mean
+                    (PrimFloat.div (PrimFloat.div (float_of_Z (hs_sum st)) (float_of_Z 4))
+                                   (float_of_Z n))) && twin
+        | None => false
+        end in
+      let prop :=
+        twin && (cnt =? n) && (sum =? zsum xs) &&
+        (if n =? 0 then (mn =? 0) && (mx =? 0) && (p50 =? 0) && (p95 =? 0) && (p99 =? 0)
+         else rank_ok xs 0 mn && rank_ok xs (n - 1) mx && rank_ok xs (n / 2) p50 &&
+              rank_ok xs (n * 95 / 100) p95 && rank_ok xs (n * 99 / 100) p99 &&
+              (mn <=? p50) && (p50 <=? p95) && (p95 <=? p99) && (p99 <=? mx)) in
+      Some (agree, prop)
+  | JL [JS _] => Some (false, false)      (* stats() panicked *)
+  | _ => None
   end.
 
 (* ---------- entry point ---------- *)
@@ -1010,12 +1069,24 @@ Definition check_C16 (kind : string) (input output : J) : verdict :=
         finish (judge_attach steps slept obs finals)
     | _, _ => malformed
     end
+  else if String.eqb kind "hist" then
+    (* in = [via, samples]; out = [ok, [count, 4 sum, mean, 4 min, 4 max, 4 p50, 4 p95, 4 p99],
+       value() carries the same numbers] *)
+    match input with
+    | JL [JI _; jxs] =>
+        match dec_samples jxs with
+        | Some xs => finish (judge_hist xs output)
+        | None => malformed
+        end
+    | _ => malformed
+    end
   else if String.eqb kind "saves" then
     (* in = [ncoll, npaths, steps]; out = [ok, per step [result, elapsed ns, [lo,hi], digests of
        to_json / snapshot / print, digest of every file, save info], final texts] *)
     match input, output with
     | JL [JI ncoll; JI npaths; JL steps], JL [JS _; JL obs; finals] =>
         finish (judge_saves_case ncoll npaths steps obs finals)
+    | JL [JI _; JI _; JL _], JL [JS _] => ok_verdict false false     (* panic / hang *)
     | _, _ => malformed
     end
   else malformed.
